@@ -593,7 +593,7 @@ def readback(sig):
         sh = Shape.cast(sig.shape)
         return [2, sh.width, int(sh.signed), FACC[sig.access.value]]
     if isinstance(u, wishbone.Signature):
-        fs = {f.value for f in sig.features}
+        fs = {getattr(f, "value", f) for f in sig.features}     # tolerate un-normalised spellings: report them
         return [3, sig.addr_width, sig.data_width, sig.granularity, [int(f in fs) for f in FE]]
     if isinstance(u, event.Source.Signature):
         return [4, TRG[sig.trigger.value]]
